@@ -363,10 +363,11 @@ class Ctx:
         self.impl_calls = 0
         self.notes: List[str] = []
         self.deadline: Optional[float] = None
+        self.scale = 1.0
 
     # --- budgets
     def budget(self, quick: int, thorough: int) -> int:
-        scale = float(os.environ.get("VERIF_BUDGET_SCALE", "1"))
+        scale = float(os.environ.get("VERIF_BUDGET_SCALE", "1")) * self.scale
         return max(1, int((quick if self.tier == "quick" else thorough) * scale))
 
     def thorough(self) -> bool:
